@@ -174,14 +174,18 @@ func runCharac(id string, toks []string) (res string) {
 			v := parseVal(p[1])
 			c.OnValueGet(func() interface{} { return v })
 			ret := c.GetValue()
+			n := len(cbs)
 			extra = handedOut(c, ret)
+			cbs = cbs[:n] // the probe calls the getter once more: what that call reports is the harness's doing, not the history's
 			c.OnValueGet(nil)
 		case "GR":
 			q := strings.SplitN(p[1], ":", 2)
 			v := parseVal(q[1])
 			c.OnValueGet(func() interface{} { return v })
 			ret := c.GetValueFromConnection(&fakeConn{id: q[0]})
+			n := len(cbs)
 			extra = handedOut(c, ret)
+			cbs = cbs[:n] // the probe calls the getter once more: what that call reports is the harness's doing, not the history's
 			c.OnValueGet(nil)
 		case "B":
 			// the application declares the range again (exported fields, as the accessory constructors do)
